@@ -192,6 +192,44 @@ partial def toT : Json → Except String T
     | _ => err "bad T"
   | _ => err "bad T"
 
+partial def toT2 : Json → Except String T2
+  | .arr xs =>
+    let idx := fun (name : String) => match Gen.allOps.findIdx? (fun o => o.name == name) with
+      | some k => pure k
+      | none => (err ("not a renderer of the table: " ++ name) : Except String Nat)
+    match xs.toList with
+    | [.str "leaf", .str t, r] => do
+      let x ← toRaw r
+      pure (.leaf t x)
+    | [.str "un", .str name, x] => do
+      let k ← idx name
+      let a ← toT2 x
+      pure (.un k a)
+    | [.str "bin", .str name, l, r] => do
+      let k ← idx name
+      let a ← toT2 l
+      let b ← toT2 r
+      pure (.bin k a b)
+    | [.str "tern", .str name, a, b, c] => do
+      let k ← idx name
+      let x ← toT2 a
+      let y ← toT2 b
+      let z ← toT2 c
+      pure (.tern k x y z)
+    | _ => err "bad T2"
+  | _ => err "bad T2"
+
+def handleFmt2 (req : Json) : Except String String := do
+  let tj ← req.getObjVal? "t"
+  let t ← toT2 tj
+  let p := match req.getObjValAs? Int "prec2" with
+    | .ok p => p
+    | .error _ => 200
+  let e := Fmt2.fmt Gen.allOps t p
+  pure ("{\"sql\":" ++ jstr (E.render e) ++ ",\"ok\":" ++ toString (E.okTop Gen.ctx e) ++
+    ",\"admissible\":" ++ toString (Fmt2.admissible [] Gen.allOps t) ++
+    ",\"drops\":" ++ toString (E.dropsTop Gen.ctx e) ++ "}")
+
 def handleFmt (req : Json) : Except String String := do
   let tj ← req.getObjVal? "t"
   let t ← toT tj
@@ -352,6 +390,7 @@ def handle (line : String) : String :=
       | .ok "expr" => handleExpr req
       | .ok "scrub" => handleScrub req
       | .ok "fmt" => handleFmt req
+      | .ok "fmt2" => handleFmt2 req
       | .ok "script" => handleScript req
       | .ok "accumulate" => handleAccumulate req
       | .ok "union" => handleUnion req
